@@ -180,6 +180,14 @@ func (v *EnumVisitor) getEnumValueDefinitions(
 			}
 		}
 
+		// An assigned alias (type Score = int) is identical to its target, so every constant of the target type would
+		// qualify - only constants declared with the alias itself belong to it
+		if enumTypeName.IsAlias() {
+			if curObjAlias, isCurObjAlias := constObj.Type().(*types.Alias); !isCurObjAlias || curObjAlias.Obj() != enumTypeName {
+				continue
+			}
+		}
+
 		// ensure the const's type exactly matches the enum type
 		if !types.Identical(enumTypeName.Type(), constObj.Type()) {
 			continue
